@@ -331,3 +331,245 @@ fn c20_gpu_change_resolution() {
     kani::cover!(w == 32 && h == 32);
     kani::cover!(w == 3 && h == 5);
 }
+
+// ---- second attempt at the GPU command sequences: a hand-rolled two-descriptor device (no generic chain walk) -------
+static mut G2_N: usize = 0;
+static mut G2_T: [u32; 8] = [0; 8];
+static mut G2_A: [[u32; 7]; 8] = [[0; 7]; 8];
+static mut G2_RESP: [u32; 8] = [0; 8];
+static mut G2_DISP: [u32; 2] = [0; 2];
+struct GpuDev2;
+impl DevModel for GpuDev2 {
+    fn on_notify(q: u16) {
+        if q == QUEUE_CURSOR {
+            unsafe {
+                if let Some(head) = dev_take::<N>(1) {
+                    let m = &*(QS[1].d2d as *const D2DMem<N>);
+                    let d0 = dv(&m.desc[(head as usize) % N]);
+                    assert!(d0.flags == 0 && d0.len == 4096, "C20: a cursor command is one readable request");
+                    let e0 = lg_find_live(d0.addr);
+                    assert!(e0.is_some(), "C04: device was given an address that is not a live share");
+                    let p0 = LGP[e0.unwrap()];
+                    CUR_T = (p0 as *const u32).read_unaligned();
+                    let mut w = 0;
+                    while w < 8 {
+                        CUR_A[w] = (p0.add(24 + 4 * w) as *const u32).read_unaligned();
+                        w += 1;
+                    }
+                    CUR_N += 1;
+                    dev_complete::<N>(1, head, 0);
+                }
+            }
+            return;
+        }
+        unsafe {
+            if let Some(head) = dev_take::<N>(0) {
+                let m = &*(QS[0].d2d as *const D2DMem<N>);
+                let d0 = dv(&m.desc[(head as usize) % N]);
+                let d1 = dv(&m.desc[(d0.next as usize) % N]);
+                assert!(d0.flags == 1 && d1.flags == 2 && d0.len == 4096 && d1.len == 4096, "C20: a control command is one readable request and one writable response");
+                let e0 = lg_find_live(d0.addr);
+                let e1 = lg_find_live(d1.addr);
+                assert!(e0.is_some() && e1.is_some(), "C04: device was given an address that is not a live share");
+                let (p0, p1) = (LGP[e0.unwrap()], LGP[e1.unwrap()]);
+                let i = G2_N;
+                assert!(i < 8, "C20: more commands than the operation allows");
+                G2_T[i] = (p0 as *const u32).read_unaligned();
+                let mut w = 0;
+                while w < 7 {
+                    G2_A[i][w] = (p0.add(24 + 4 * w) as *const u32).read_unaligned();
+                    w += 1;
+                }
+                let ok = match G2_T[i] { 0x100 => 0x1101, 0x10a => 0x1104, _ => 0x1100 };
+                (p1 as *mut u32).write_unaligned(if G2_RESP[i] == 0 { ok } else { G2_RESP[i] });
+                if G2_T[i] == 0x100 {
+                    (p1.add(24 + 8) as *mut u32).write_unaligned(G2_DISP[0]);
+                    (p1.add(24 + 12) as *mut u32).write_unaligned(G2_DISP[1]);
+                }
+                if G2_T[i] == 0x10a {
+                    (p1.add(24) as *mut u32).write_unaligned(EDID_SIZE);
+                    *p1.add(32 + EDID_K) = EDID_BYTE;
+                }
+                if G2_T[i] == 0x106 {
+                    // attach backing: the memory must be live DMA memory covering the advertised length
+                    let addr = (G2_A[i][2] as u64) | ((G2_A[i][3] as u64) << 32);
+                    let di = dma_index(addr);
+                    assert!(di.is_some() && DMA[di.unwrap()].live, "C20: backing address is not live DMA memory");
+                    assert!(G2_A[i][4] as usize <= DMA[di.unwrap()].pages * 4096, "C20: backing memory does not cover the advertised length");
+                    DMA_PROTECTED[0] = addr;
+                }
+                if G2_T[i] == 0x107 || G2_T[i] == 0x102 { DMA_PROTECTED[0] = 0; }
+                G2_N += 1;
+                dev_complete::<N>(0, head, 4096);
+            }
+        }
+    }
+}
+fn mk2() -> VirtIOGpu<THal<N>, MT<GpuDev2>> {
+    lg_init_concrete();
+    let mut t = mt::<GpuDev2>(DeviceType::GPU, 0);
+    unsafe { DRIVER_OK_SEEN = true; DMA_RING_ALLOCS = 4; }
+    let control_queue = VirtQueue::new(&mut t, QUEUE_TRANSMIT, false, false, false).unwrap();
+    let cursor_queue = VirtQueue::new(&mut t, QUEUE_CURSOR, false, false, false).unwrap();
+    VirtIOGpu {
+        transport: t, rect: None, frame_buffer_dma: None, cursor_buffer_dma: None, control_queue, cursor_queue,
+        queue_buf_send: FromZeros::new_box_zeroed_with_elems(PAGE_SIZE).unwrap(),
+        queue_buf_recv: FromZeros::new_box_zeroed_with_elems(PAGE_SIZE).unwrap(),
+        has_edid: false, access_platform: false,
+    }
+}
+
+// @harness props=C20 tier=quick timeout=1800
+#[kani::proof]
+#[kani::unwind(10)]
+fn c20_gpu2_resolution() {
+    let mut gpu = mk2();
+    unsafe { G2_DISP = kani::any(); G2_RESP[0] = kani::any(); }
+    let r = gpu.resolution();
+    unsafe {
+        assert!(G2_N == 1 && G2_T[0] == 0x100, "C20: GET_DISPLAY_INFO command");
+        if G2_RESP[0] == 0 || G2_RESP[0] == 0x1101 {
+            assert!(r == Ok((G2_DISP[0], G2_DISP[1])), "C20: resolution must be what the device reported");
+        } else {
+            assert!(r == Err(Error::IoError), "C20: a response that is not the expected success type must be reported as an error");
+        }
+    }
+    core::mem::forget(gpu);
+    kani::cover!(r.is_ok());
+    kani::cover!(r.is_err());
+}
+
+// first framebuffer set-up, then flush
+// (not registered: more than one 4096-byte command round trip exhausts memory - bad_alloc after ~6 min)
+#[cfg(any())]
+fn c20_gpu2_change_resolution_flush() {
+    let mut gpu = mk2();
+    let (w, h): (u32, u32) = (kani::any(), kani::any());
+    kani::assume(w >= 1 && w <= 32 && h >= 1 && h <= 32);
+    let fb_len = gpu.change_resolution(w, h).map(|b| b.len());
+    unsafe {
+        assert!(fb_len.is_ok(), "C20: change_resolution with a device that never errs");
+        assert!(G2_N == 3 && G2_T[0] == 0x101 && G2_T[1] == 0x106 && G2_T[2] == 0x103, "C20: a new framebuffer is set up as create resource, attach backing, set scanout - in that order");
+        assert!(G2_A[0][0] == 0xbabe && G2_A[0][1] == 1 && G2_A[0][2] == w && G2_A[0][3] == h, "C20: RESOURCE_CREATE_2D fields (resource id, format B8G8R8A8, width, height)");
+        let addr = (G2_A[1][2] as u64) | ((G2_A[1][3] as u64) << 32);
+        assert!(G2_A[1][0] == 0xbabe && G2_A[1][1] == 1 && G2_A[1][4] == w * h * 4 && addr == DMA[4].paddr, "C20: RESOURCE_ATTACH_BACKING fields (resource id, one entry, address and length of the framebuffer memory)");
+        assert!(G2_A[2][0] == 0 && G2_A[2][1] == 0 && G2_A[2][2] == w && G2_A[2][3] == h && G2_A[2][4] == 0 && G2_A[2][5] == 0xbabe, "C20: SET_SCANOUT fields (rect, scanout id, resource id)");
+        assert!(fb_len.unwrap() >= (w * h * 4) as usize && DMA[4].live, "C20: framebuffer memory must cover the resolution and stay allocated while attached");
+        G2_N = 0;
+    }
+    let r = gpu.flush();
+    unsafe {
+        assert!(r.is_ok() && G2_N == 2 && G2_T[0] == 0x105 && G2_T[1] == 0x104, "C20: flush is transfer-to-host then resource-flush");
+        assert!(G2_A[0][2] == w && G2_A[0][3] == h && G2_A[0][4] == 0 && G2_A[0][5] == 0 && G2_A[0][6] == 0xbabe, "C20: TRANSFER_TO_HOST_2D fields (rect, offset 0, resource id)");
+        assert!(G2_A[1][2] == w && G2_A[1][3] == h && G2_A[1][4] == 0xbabe, "C20: RESOURCE_FLUSH fields (rect, resource id)");
+    }
+    core::mem::forget(gpu);
+    kani::cover!(w == 32 && h == 32);
+    kani::cover!(w == 3 && h == 5);
+}
+
+// a second resolution change tears the old framebuffer down first and only then releases its memory
+// (not registered: more than one 4096-byte command round trip exhausts memory - bad_alloc after ~6 min)
+#[cfg(any())]
+fn c20_gpu2_second_change_resolution() {
+    let mut gpu = mk2();
+    let _ = gpu.change_resolution(4, 4).map(|b| b.len());
+    unsafe { G2_N = 0; }
+    let (w2, h2): (u32, u32) = (kani::any(), kani::any());
+    kani::assume(w2 >= 1 && w2 <= 32 && h2 >= 1 && h2 <= 32);
+    let r2 = gpu.change_resolution(w2, h2).map(|b| b.len());
+    unsafe {
+        assert!(r2.is_ok() && G2_N == 6, "C20: second change_resolution");
+        assert!(G2_T[0] == 0x103 && G2_A[0][5] == 0 && G2_T[1] == 0x107 && G2_A[1][0] == 0xbabe && G2_T[2] == 0x102 && G2_A[2][0] == 0xbabe, "C20: tear-down is disable scanout, detach backing, unref - before anything is released");
+        assert!(G2_T[3] == 0x101 && G2_T[4] == 0x106 && G2_T[5] == 0x103, "C20: then create, attach, set scanout again");
+        assert!(!DMA[4].live && DMA[4].deallocs == 1 && DMA[5].live, "C20: the old framebuffer memory is released exactly once, the new one stays");
+        assert!(G2_A[4][4] == w2 * h2 * 4, "C20: new backing length");
+    }
+    core::mem::forget(gpu);
+    kani::cover!(w2 == 1 && h2 == 1);
+    kani::cover!(w2 == 32);
+}
+
+// every helper reports any response other than the expected success type; EDID gating; cursor move
+// (not registered: more than one 4096-byte command round trip exhausts memory - bad_alloc after ~6 min)
+#[cfg(any())]
+fn c20_gpu2_errors_edid_cursor() { gpu2_single(9) }
+
+fn gpu2_single(opfix: u8) {
+    let mut gpu = mk2();
+    gpu.has_edid = kani::any();
+    let rt: u32 = kani::any();
+    unsafe {
+        G2_RESP[0] = rt;
+        EDID_SIZE = kani::any();
+        EDID_K = match kani::any::<u8>() % 3 { 0 => 0, 1 => 0x38, _ => 1023 };
+        EDID_BYTE = kani::any();
+    }
+    let op: u8 = if opfix < 4 { opfix } else { kani::any() };
+    kani::assume(op < 4);
+    if op == 2 || op == 1 { kani::assume(rt != 0 && rt != 0x1100); } // single-command variants: the first command fails
+    match op {
+        0 => {
+            let sc: u32 = kani::any();
+            let e = gpu.get_edid(sc);
+            unsafe {
+                if !gpu.has_edid {
+                    assert!(G2_N == 0 && matches!(e, Err(Error::Unsupported)), "C08: EDID must not be requested unless the feature was negotiated");
+                } else if rt == 0 || rt == 0x1104 {
+                    assert!(G2_N == 1 && G2_T[0] == 0x10a && G2_A[0][0] == sc, "C20: GET_EDID command (scanout id)");
+                    let ed = e.unwrap();
+                    assert!(ed.size == EDID_SIZE && ed.data[EDID_K] == EDID_BYTE, "C20: EDID blob must be what the device reported");
+                } else {
+                    assert!(matches!(e, Err(Error::IoError)), "C20: a response that is not the expected success type must be reported as an error");
+                }
+            }
+        }
+        1 => {
+            gpu.rect = Some(Rect { x: 0, y: 0, width: 1, height: 1 });
+            let r = gpu.flush();
+            assert!(r.is_ok() == (rt == 0 || rt == 0x1100), "C20: a response that is not the expected success type must be reported as an error");
+            if r.is_err() { assert!(unsafe { G2_N } == 1, "C20: the operation must stop at the first failed command"); }
+        }
+        2 => {
+            let (cw, ch): (u32, u32) = (kani::any(), kani::any());
+            kani::assume(cw >= 1 && cw <= 32 && ch >= 1 && ch <= 32);
+            let r = gpu.change_resolution(cw, ch).map(|b| b.len());
+            unsafe {
+                assert!(G2_T[0] == 0x101 && G2_A[0][0] == 0xbabe && G2_A[0][1] == 1 && G2_A[0][2] == cw && G2_A[0][3] == ch, "C20: a framebuffer set-up starts with RESOURCE_CREATE_2D (resource id, format B8G8R8A8, width, height)");
+            }
+            assert!(r.is_ok() == (rt == 0 || rt == 0x1100), "C20: a response that is not the expected success type must be reported as an error");
+            if r.is_err() { assert!(unsafe { G2_N } == 1 && dma_live_count() == 4, "C20: the operation must stop at the first failed command without keeping memory"); }
+        }
+        _ => {
+            let (x, y): (u32, u32) = (kani::any(), kani::any());
+            let m = gpu.move_cursor(x, y);
+            unsafe {
+                assert!(m.is_ok() && CUR_N == 1 && CUR_T == 0x301 && CUR_A[0] == 0 && CUR_A[1] == x && CUR_A[2] == y && CUR_A[4] == 0xdade, "C20: MOVE_CURSOR fields (scanout, x, y, resource id)");
+            }
+        }
+    }
+    let had_edid = gpu.has_edid;
+    core::mem::forget(gpu);
+    kani::cover!(rt == 0x1200 || op == 3);
+    kani::cover!(op != 0 || (rt == 0 && had_edid));
+}
+
+// @harness props=C20,C08 tier=quick timeout=1800
+#[kani::proof]
+#[kani::unwind(10)]
+fn c20_gpu2_get_edid() { gpu2_single(0) }
+
+// @harness props=C20 tier=quick timeout=1800
+#[kani::proof]
+#[kani::unwind(10)]
+fn c20_gpu2_create_fails() { gpu2_single(2) }
+
+// @harness props=C20 tier=quick timeout=1800
+#[kani::proof]
+#[kani::unwind(10)]
+fn c20_gpu2_move_cursor() { gpu2_single(3) }
+
+// @harness props=C20 tier=thorough timeout=1800
+#[kani::proof]
+#[kani::unwind(10)]
+fn c20_gpu2_flush_fails() { gpu2_single(1) }
